@@ -29,6 +29,7 @@ def script(m, regs, keys, consts, clear_constants):
   attempt('locked', lambda: bool(gin.config_is_locked()))
   attempt('config_str', gin.config_str)
   attempt('operative_config_str', gin.operative_config_str)
+  attempt('config_str+prov', lambda: gin.config_str(show_provenance=True))
   attempt('store', lambda: m.dump(gin.config._CONFIG))
   attempt('singletons', lambda: sorted(gin.config._SINGLETONS))
   attempt('imports', lambda: len(gin.config._IMPORTS))
@@ -45,7 +46,8 @@ def script(m, regs, keys, consts, clear_constants):
       return T('Ret', r.sel, r.n - base) if isinstance(r, ginm.Ret) else m.canon(r)
     attempt('call ' + c['sel'], call)
     base = m.counter
-  attempt('operative_config_str2', gin.operative_config_str)
+  attempt('operative_config_str2', lambda: gin.operative_config_str(show_provenance=True))
+  attempt('singleton_value', lambda: [m.canon(gin.config.singleton_value(k)) for k in ('sing', 's2')])
   for name in consts:
     attempt('const ' + name, lambda name=name: m.canon(gin.query_parameter(name)))
   attempt('constants', lambda: sorted(k for k, _ in gin.config._CONSTANTS.items()))
@@ -91,8 +93,11 @@ class ClearEngine(c12.LockEngine):
         ops += [['interactive', body]] if rng.random() < 0.4 else body
       elif r < 0.85:
         c = rng.choice(regs)
-        p = (ginm.sig_names(c['sig']) or ['a'])[0]
-        ops.append(['pbind', 'sing/gin.singleton.constructor', ['ref', [], c['sel'], False]])
+        others = [x for x in regs if x is not c] or [c]
+        if others[0] is c or not c['sig']['args']:
+          continue
+        p = c['sig']['args'][0]
+        ops.append(['pbind', 'sing/gin.singleton.constructor', ['ref', [], others[0]['sel'], False]])
         ops.append(['pbind', c['sel'] + '.' + p, ['ref', ['sing'], 'gin.singleton', True]])
         ops.append(['call', c['sel'], [], []])
       else:
